@@ -1,4 +1,4 @@
-(* Proofs/GlueTieC06.v — glue functions of C06 (bits, bit, the bit counts of BInt, swap_bytes / reverse_bits of BInt, is_power_of_two, next_power_of_two, is_zero / is_one, cast_signed / cast_unsigned): generated (Generated/Glue.v) = hand-written model.
+(* Proofs/GlueTieC06.v — glue functions of C06 (bits, bit, the bit counts of BInt, swap_bytes / reverse_bits of BInt, is_power_of_two, (checked_)next_power_of_two, is_zero / is_one, cast_signed / cast_unsigned, BInt bitand / bitor / bitxor / not): generated (Generated/Glue.v) = hand-written model.
    One file per property so that an edit of one family's source breaks only that property's check.
    Boiler-plate written by tools/mk_gluetie.py from its SPEC table; the statements are fixed by committing this file. *)
 From Bnum Require Import Base Prim.
@@ -40,6 +40,16 @@ Lemma glue_I_is_zero : forall w a, Glue.I_is_zero w a = is_zero a.
 Proof. glue_tac. Qed.
 Lemma glue_I_is_one : forall w a, Glue.I_is_one w a = is_one a.
 Proof. glue_tac. Qed.
+Lemma glue_U_checked_next_power_of_two : forall w a, Glue.U_checked_next_power_of_two w a = U_checked_next_power_of_two w a.
+Proof. glue_tac. Qed.
+Lemma glue_I_bitand : forall w a b, Glue.I_bitand w a b = bitand a b.
+Proof. glue_tac. Qed.
+Lemma glue_I_bitor : forall w a b, Glue.I_bitor w a b = bitor a b.
+Proof. glue_tac. Qed.
+Lemma glue_I_bitxor : forall w a b, Glue.I_bitxor w a b = bitxor a b.
+Proof. glue_tac. Qed.
+Lemma glue_I_not : forall w a, Glue.I_not w a = bitnot w a.
+Proof. glue_tac. Qed.
 
 Definition glue_bits_statement : Prop :=
   (forall w a, Glue.U_bits w a = bits_of w a) /\
@@ -58,7 +68,12 @@ Definition glue_bits_statement : Prop :=
   (forall w a, Glue.I_bits w a = bits_of w a) /\
   (forall w a k, Glue.I_bit w a k = bit w a k) /\
   (forall w a, Glue.I_is_zero w a = is_zero a) /\
-  (forall w a, Glue.I_is_one w a = is_one a).
+  (forall w a, Glue.I_is_one w a = is_one a) /\
+  (forall w a, Glue.U_checked_next_power_of_two w a = U_checked_next_power_of_two w a) /\
+  (forall w a b, Glue.I_bitand w a b = bitand a b) /\
+  (forall w a b, Glue.I_bitor w a b = bitor a b) /\
+  (forall w a b, Glue.I_bitxor w a b = bitxor a b) /\
+  (forall w a, Glue.I_not w a = bitnot w a).
 Theorem glue_bits_matches_model : glue_bits_statement.
 Proof.
   unfold glue_bits_statement. repeat apply conj.
@@ -79,4 +94,9 @@ Proof.
   - exact glue_I_bit.
   - exact glue_I_is_zero.
   - exact glue_I_is_one.
+  - exact glue_U_checked_next_power_of_two.
+  - exact glue_I_bitand.
+  - exact glue_I_bitor.
+  - exact glue_I_bitxor.
+  - exact glue_I_not.
 Qed.
